@@ -59,7 +59,7 @@ struct VhAttr { uint16 first, second; };
 // ll_frozen_check(p) first; the harness registers the objects that make up the shared face (and font) here.
 #ifdef VH_FROZEN
 extern "C" bool __CPROVER_same_object(const void *, const void *);
-enum { VH_MAXFROZEN = 16 };
+enum { VH_MAXFROZEN = 28 };
 static const void *vh_frozen[VH_MAXFROZEN]; static unsigned vh_nfrozen = 0;
 static inline void vh_freeze(const void *p) { if (vh_nfrozen < VH_MAXFROZEN) vh_frozen[vh_nfrozen++] = p; }
 extern "C" void ll_frozen_check(uint8_t *p) {
